@@ -32,9 +32,9 @@ def q(xs):
     return "{%s}" % ", ".join('"%s"' % x for x in xs)
 
 
-def write_model(d, kinds, styles, nests, maxtop, maxsub, alias, srctag, toggles=(), emit=True, sample=1):
+def write_model(d, kinds, styles, nests, maxtop, maxsub, alias, srctag, toggles=(), emit=True, sample=1, names=None):
     C.copy_specs(d, ["Sources.tla"])
-    mod = ["---- MODULE MCSources ----", "EXTENDS Sources", "MCNames == " + seq(NAMES), "MCTagWords == " + seq(TAGW),
+    mod = ["---- MODULE MCSources ----", "EXTENDS Sources", "MCNames == " + seq(names or NAMES), "MCTagWords == " + seq(TAGW),
            "MCAliasWords == " + seq(ALIASW), "===="]
     open(os.path.join(d, "MCSources.tla"), "w").write("\n".join(mod) + "\n")
     lines = ["SPECIFICATION Spec", "CONSTANTS", "  Names <- MCNames", "  TagWords <- MCTagWords", "  AliasWords <- MCAliasWords",
@@ -57,8 +57,14 @@ def cases_of(out):
     return [json.loads(c) for c in sorted(seen)]
 
 
+def adjacent_one_letter_words(case):
+    return any(len(a) == 1 and len(b) == 1 for l in case["expect"]["leaves"] for a, b in zip(l["env"], l["env"][1:]))
+
+
 def known_match(known, pid, mis, case):
     for k in known:
+        if k.get("case_pred") == "adjacent_one_letter_words" and not adjacent_one_letter_words(case):
+            continue
         if k["property"] == pid and re.search(k["match"], mis["detail"]) and (not k.get("src") or k["src"] == mis.get("src")) and (not k.get("kind") or any(l["kind"] == k["kind"] for l in case["expect"]["leaves"])):
             return k
     return None
@@ -118,6 +124,16 @@ def run_check(pid, tier, replay=None):
         trans += res3.generated
         runs.append({"universe": "one nested struct with two leaves over kinds %s" % kinds, "distinct_states": res3.distinct, "cases": len(cs3), "exhaustive": True})
         cases += cs3
+        if pid == "C11":
+            # (d) one-letter field names on nested paths (N.M): the documented variable is N_M
+            d = scratch.sub("srcd")
+            write_model(d, ["int", "str"], ["none"], ["struct", "pstruct"], 1, 1, False, False, names=[["n"], ["m"], ["k"]])
+            res4 = C.run_tlc(d, "MCSources", "S.cfg", timeout=3000)
+            cs4 = [c for c in cases_of(res4.out) if c["fields"][0]["nest"]]
+            states += res4.distinct
+            trans += res4.generated
+            runs.append({"universe": "one struct with one leaf, one-letter field names", "distinct_states": res4.distinct, "cases": len(cs4), "exhaustive": True})
+            cases += cs4
         todo = []
         for c in cases:
             c["seed"] = rng.randrange(1000)
